@@ -16,7 +16,7 @@ class C02(Spec):
     streams = [
         Stream("images", "crash", c01.REFDB, "run_crash_case",
                c01.images([["rollback", "open"], ["rollback", "open", "ddl"], ["rollback", "open", "ckpt"], ["rollback", "open", "steal"],
-                           ["rollback", "open", "vacuum", "ddl"], ["rollback", "bulk"]], 90, 600, big=3),
+                           ["rollback", "open", "vacuum", "ddl"], ["rollback", "bulk"], ["abort-ckpt"]], 90, 600, big=3),
                canon=CG.model_canon, canon_case=CG.make_canon(check_flags=False), rust_shards=16, shard=3, reference=True),
         Stream("simple", "crash", [], None, c01.simple(60, 600), oracle=CG.simple_oracle, rust_shards=16),
         Stream("protocol", "crash", c01.CRASH, "run_protocol_case", c01.protocol(60, 800),
